@@ -195,3 +195,26 @@ package bill
 //@   at-call Invoice).Calculate assert [linked] len(inv.Preceding) == 1 && inv.Preceding[0] != nil && fresh(inv.Preceding[0]) && inv.Preceding[0].Identify.UUID == old(inv.Identify.UUID) && inv.Preceding[0].Type == old(inv.Type) && inv.Preceding[0].Series == old(inv.Series) && inv.Preceding[0].Code == old(inv.Code) && old(inv.Code) != ""
 //@   at-call Invoice).Calculate assert [date] inv.Preceding[0].IssueDate != nil && *inv.Preceding[0].IssueDate == old(inv.IssueDate) && inv.Preceding[0].Reason == o.Reason && inv.Preceding[0].Ext == o.Ext
 //@   at-call Invoice).Calculate assert [required] cd != nil ==> (len(cd.Types) > 0 ==> cbc.keyAmong(inv.Type, cd.Types)) && (cd.ReasonRequired ==> inv.Preceding[0].Reason != "") && (forall i int :: 0 <= i && i < len(cd.Stamps) ==> stampFor(cd.Stamps[i], inv.Preceding[0].Stamps))
+//
+// ---- C20: a payment line's total is debit minus credit in the payment currency
+//
+// an amount in the line's own currency is converted with the first declared rate from that
+// currency to the payment currency (currency.Convert, proved); a line without a currency is
+// already in the payment currency and is taken as it is. The total is kept at the payment
+// currency's precision.
+//@ pred firstRate(rates []*currency.ExchangeRate, from currency.Code, to currency.Code, i int) bool = 0 <= i && i < len(rates) && rates[i].From == from && rates[i].To == to && (forall j int :: 0 <= j && j < i ==> !(rates[j].From == from && rates[j].To == to))
+//@ spec plZero(cur currency.Code) num.Amount = num.Amount(0, currency.subunits(cur))
+//@ func (pl *PaymentLine) calculate(cur, rates) (err)
+//@   requires pl != nil && currency.defined(cur) && currency.ratesOK(rates) && (forall i int :: 0 <= i && i < len(rates) ==> currency.defined(rates[i].To))
+//@   modifies PaymentLine.Total
+//@   footprint pl
+//@   let same = pl.Currency == "" || pl.Currency == cur
+//@   ensures [same.debit] err == nil && same && pl.Debit != nil && pl.Credit == nil ==> pl.Total == tax.addS(plZero(cur), *pl.Debit)
+//@   ensures [same.credit] err == nil && same && pl.Debit == nil && pl.Credit != nil ==> pl.Total == tax.subS(plZero(cur), *pl.Credit)
+//@   ensures [same.both] err == nil && same && pl.Debit != nil && pl.Credit != nil ==> pl.Total == tax.subS(tax.addS(plZero(cur), *pl.Debit), *pl.Credit)
+//@   ensures [conv.debit] err == nil && !same && pl.Debit != nil && pl.Credit == nil ==> (forall i int :: firstRate(rates, pl.Currency, cur, i) ==> pl.Total == tax.addS(plZero(cur), currency.convS(*pl.Debit, rates[i].Amount, currency.subunits(cur))))
+//@   ensures [conv.credit] err == nil && !same && pl.Debit == nil && pl.Credit != nil ==> (forall i int :: firstRate(rates, pl.Currency, cur, i) ==> pl.Total == tax.subS(plZero(cur), currency.convS(*pl.Credit, rates[i].Amount, currency.subunits(cur))))
+//@   ensures [conv.both] err == nil && !same && pl.Debit != nil && pl.Credit != nil ==> (forall i int :: firstRate(rates, pl.Currency, cur, i) ==> pl.Total == tax.subS(tax.addS(plZero(cur), currency.convS(*pl.Debit, rates[i].Amount, currency.subunits(cur))), currency.convS(*pl.Credit, rates[i].Amount, currency.subunits(cur))))
+//@   ensures [none] err == nil && pl.Debit == nil && pl.Credit == nil ==> pl.Total == plZero(cur)
+//@   ensures [rate] err == nil && !same && (pl.Debit != nil || pl.Credit != nil) ==> (exists i int :: firstRate(rates, pl.Currency, cur, i))
+//@   ensures [norate] err != nil ==> !same && (forall i int :: 0 <= i && i < len(rates) ==> !(rates[i].From == pl.Currency && rates[i].To == cur))
